@@ -70,7 +70,10 @@ def gen(seed: int, tier: str) -> dict[str, Any]:
                 params[p] = [rng.choice(pool) for _ in range(rng.randint(2, 3))]   # active + passive addresses
             else:
                 params[p] = rng.choice(pool)
-        devs.append({"kind": kind, "params": params, "sync": rng.choice([True, False, "init", "expire 60"])})
+        # " " is not a valid tracker option: registering such a device fails half way through async_add (in
+        # register_state_updater, after the device was entered into the registry)
+        devs.append({"kind": kind, "params": params,
+                     "sync": " " if rng.random() < 0.06 else rng.choice([True, False, "init", "expire 60"])})
     ops: list[dict[str, Any]] = []
     t = 0.0
     for i in range(nd):
@@ -190,6 +193,15 @@ def run(plan: dict[str, Any]) -> dict[str, Any]:
                     if list(xknx.devices) != before:
                         R.violate("C37.illegal-ops", "failed-add-changed-registry", f"device {i}")
                     R.extra_faults["illegal_add"] += 1
+                except Exception:  # pylint: disable=broad-except
+                    # the add failed half way (device set-up raised). Whether the device counts as registered afterwards is
+                    # the registry's choice - but iteration, index and dispatch must agree on it (checked below / at dispatch)
+                    R.extra_faults["add_failed_half_way"] += 1
+                    now_in = any(d is devobjs[i] for d in xknx.devices)
+                    if now_in and i not in registered:
+                        registered.append(i)
+                    elif not now_in and i in registered:
+                        registered.remove(i)
             elif k == "remove":
                 i = op["i"]
                 before = list(xknx.devices)
@@ -205,6 +217,11 @@ def run(plan: dict[str, Any]) -> dict[str, Any]:
                     if list(xknx.devices) != before:
                         R.violate("C37.illegal-ops", "failed-remove-changed-registry", f"device {i}")
                     R.extra_faults["illegal_remove"] += 1
+                except Exception:  # pylint: disable=broad-except
+                    R.probes["remove_raised_other_exception"] += 1
+                    now_in = any(d is devobjs[i] for d in xknx.devices)
+                    if not now_in and i in registered:
+                        registered.remove(i)
             elif k == "conn":
                 xknx.connection_manager.connection_state_changed(XknxConnectionState[op["state"]])
                 R.extra_faults["connection_change"] += 1
